@@ -9,46 +9,60 @@ its own so that it can be cancelled alone (fault kind task.cancel, decided per l
 its own load, while it waits for somebody else's load, in the instant the load completes).  Think times are a few
 1/1024 s ticks or about one lifetime (expiry races: the cache compares `expiry <= monotonic_ns()`; lifetimes are
 even multiples of 1/1024 s so that lifetime_ns is an integer and ages are exact).  The loader (a plain function
-returning a coroutine, so the harness sees in whose lookup the cache started the load) takes 0..8 ticks, returns
-(key, load_id, completion tick) or raises LoadError; durations and failures come from a per-key stream.  A prober
-actor runs capacity probe passes at seeded instants; a final phase waits one lifetime and looks every key up again.
+returning a coroutine; a context variable tells in whose lookup the cache started the load) takes 0..8 ticks,
+returns (key, load_id, completion tick) or raises LoadError; durations and failures come from a per-key stream.
+A prober actor asks for capacity probe passes at seeded instants; a final phase waits one lifetime and looks
+every key up again.
 
 Oracles (DESIGN.md section 6, C26):
-* capacity: a probe pass looks every key up in one synchronous block (each `cache.lookup(k)` coroutine is driven
-  by hand for one step: a lookup served from the cache finishes in that step; one that has to load or join
-  yields and is closed again, which leaves the cache as it was -- no other actor can run in between, so the count
-  is atomic).  At most `num_slots` keys may answer.  In addition len(cache._cache) <= num_slots is checked after
-  every lookup and in every pass (private field, skipped if it does not exist).
+* capacity: a probe pass looks every key up in one synchronous block, at the instant it was asked for, when the
+  loop has nothing else to run (loop.idle_hooks, no timer due): each `cache.lookup(k)` coroutine is driven by
+  hand for one step; a lookup served from the cache finishes in that step; one that has to load or join yields and
+  is closed again; a load started for a probe raises ProbeMiss at once, so nothing is cached for it and it is
+  over before any actor runs again -- the count is atomic and the pass leaves the cache as it was (apart from
+  dropping expired entries, which any lookup does).  At most `num_slots` keys may answer.  In addition
+  len(cache._cache) <= num_slots is checked after every lookup and in every pass (private field, skipped if
+  absent or with params private_checks=False; signature .../more_entries_held_than_slots).
 * freshness: a lookup (or probe hit) that returns a value it did not load itself returns one whose load completed
   at most `lifetime` ago (a value of age exactly == lifetime is "not older than its lifetime": not flagged; the
   real code never returns it either).
 * single-flight: the running intervals of two loads of one key never overlap.
 * isolation: a lookup raises only (a) CancelledError when the canceller cancelled this very lookup, or (b) the
-  LoadError raised by the load it started or joined.  Anything else is a violation; a CancelledError in a lookup
-  nobody cancelled is classified by what happened to the load it was waiting for:
+  LoadError of a load of its key that was under way while the lookup was.  Anything else is a violation; a
+  CancelledError in a lookup nobody cancelled is classified by which cancelled lookup shared its load:
     C26/isolation/joined_lookup_cancelled_by_first_looker_cancel  the lookup that started the load was cancelled
     C26/isolation/lookup_cancelled_by_joiner_cancel               a lookup that had joined the load was cancelled
                                                                   (victim: the first looker or another joiner)
     C26/isolation/cancelled_without_cause                         neither
+    C26/isolation/failure_of_a_load_it_did_not_wait_for           LoadError / ProbeMiss of a load that was over
     C26/isolation/unexpected_exception/<Type>                     e.g. KeyError out of lookup
+The harness' bookkeeping (which load a lookup waits for) is used to *classify* only and does not assume that a
+load ends with the lookup that started it, so the same check runs against a cache that detaches the load.
 
-Finding on the unchanged tree (genuine, see report): both `..._by_first_looker_cancel` and `..._by_joiner_cancel`
-fire.  `lookup` awaits the shared load task directly (`await self._futures[k]`, and the first looker awaits it
-through prom_async_time), and cancelling a task that awaits another task cancels that task as well; so one
-caller's cancellation (an aborted HTTP request) makes every concurrent lookup of that key fail with
-CancelledError.
+Finding on the unchanged tree (genuine; reproduced on a stock asyncio loop as well): both
+`..._by_first_looker_cancel` and `..._by_joiner_cancel` fire (about 17 % of the runs).  `lookup` awaits the shared
+load task directly (`return await self._futures[k]`; the first looker awaits it through prom_async_time), and
+cancelling a task that awaits another task cancels that task too; so one caller's cancellation (e.g. an aborted
+HTTP request) makes every concurrent lookup of that key -- the one that started the load and all that joined --
+fail with CancelledError although nobody cancelled them.  A scratch variant that runs load+put+cleanup in the
+shared task and lets every looker `await asyncio.shield(task)` passes this check (no signature in 60 000 runs).
 
 Sensitivity (mutants of gear/gear/time_limited_max_size_cache.py in a scratch copy, HAIL_REPO_ROOT; quick budget;
-all on top of the unchanged defect above, i.e. in addition to the two isolation signatures):
-* expiry check dropped (`if False and ...`)                  -> caught  C26/freshness/value_older_than_lifetime
-* expiry `<=` turned into `<` on the stamp + lifetime*2      -> caught  C26/freshness/value_older_than_lifetime
-* no eviction (`_over_capacity` always False)                -> caught  C26/capacity/more_cached_keys_than_slots (and more_entries_held_than_slots)
-* `_over_capacity` uses `>=`... evicts one too early         -> not caught: capacity num_slots-1 still satisfies "never more than capacity"
-* evict the newest instead of the oldest                     -> not caught: not a violation of the property text (still bounded, fresh, single-flight)
-* `_futures` join skipped (every miss starts a load)         -> caught  C26/single_flight/overlapping_loads_of_one_key (and unexpected_exception/KeyError)
-* `del self._futures[k]` dropped                             -> caught  C26/freshness/value_older_than_lifetime (stale done future is joined forever)
-* `_put` before the await result is checked / put on failure -> n/a (would not compile meaningfully)
-* joiners get `asyncio.shield`, first looker not (partial fix) -> still  C26/isolation/joined_lookup_cancelled_by_first_looker_cancel
+each in addition to the two isolation signatures of the unchanged defect):
+* expiry check dropped (`if False and ...`)               -> caught  C26/freshness/value_older_than_lifetime
+* `_put` stamps `+ 2 * lifetime_ns`                       -> caught  C26/freshness/value_older_than_lifetime
+* expiry `<` instead of `<=` (serves age == lifetime)     -> not flagged on purpose (see freshness above)
+* no eviction (`_over_capacity` returns False)            -> caught  C26/capacity/more_entries_held_than_slots; with
+                                                             private_checks=False: C26/capacity/more_cached_keys_than_slots
+* `_over_capacity`: `> num_slots + 1`                     -> caught  (same two signatures)
+* evict the newest instead of the oldest                  -> not caught: not a violation of the property text
+                                                             (still bounded, fresh, single-flight, isolated)
+* `_futures` join skipped (every miss starts a load)      -> caught  C26/single_flight/overlapping_loads_of_one_key
+                                                             and C26/isolation/unexpected_exception/KeyError
+* `del self._futures[k]` dropped                          -> caught  C26/freshness/value_older_than_lifetime,
+                                                             .../failure_of_a_load_it_did_not_wait_for, .../cancelled_without_cause
+* joiners shielded, first looker not (partial fix)        -> still   C26/isolation/joined_lookup_cancelled_by_first_looker_cancel
+                                                             (and no longer ..._by_joiner_cancel)
 """
 import asyncio
 import contextvars
@@ -236,6 +250,9 @@ def run(ctx):
             role = 'first looker' if rec['initiated'] is not None else 'joiner'
             what = f'load {ld["id"]} of key {k}' if ld is not None else f'a load of key {k}'
             if culprits:
+                if ld is not None and ld['state'] == 'cancelled':
+                    # the cancellation that reached the load is one issued in the instant the load saw it
+                    culprits = [r for r in culprits if r['t_cancel'] == ld['t_end']] or culprits
                 c = min(culprits, key=lambda r: r['cancel_no'])
                 if c['initiated'] is not None and rec['initiated'] is None:
                     fail('isolation', 'C26/isolation/joined_lookup_cancelled_by_first_looker_cancel',
@@ -352,6 +369,14 @@ def run(ctx):
                 return
             except Violation:
                 raise
+            except ProbeMiss:
+                # probe loads start and end inside one instant in which nothing else runs (on_idle), so no
+                # lookup of an actor is ever concurrent with one
+                rec['done'] = True
+                log.add(rec['name'], 'lookup_raised', k, 'ProbeMiss')
+                fail('isolation', 'C26/isolation/failure_of_a_load_it_did_not_wait_for',
+                     f'{rec["name"]} (key {k}) raised the error of a load started and finished by an earlier capacity '
+                     f'probe lookup')
             except Exception as e:  # pylint: disable=broad-except
                 rec['done'] = True
                 log.add(rec['name'], 'lookup_raised', k, type(e).__name__)
